@@ -452,6 +452,9 @@ class Parser:
                     e = ("field", e, v)
                 else:
                     name = self.ident()
+                    if self.at("::") and self.peek(1)[1] == "<":
+                        self.i += 1
+                        self.skip_generics()   # turbofish `name::<..>(..)`
                     if self.at("("):
                         e = ("mcall", e, name, self.args())
                     else:
@@ -554,6 +557,22 @@ class Parser:
                         toks.append(self.peek()[1])
                     self.i += 1
                 return ("macro", segs[-1], toks)
+            if not no_struct and self.at("{") and segs[-1][0].isupper() and self.peek(1)[0] == "id" \
+                    and self.peek(2)[1] in (":", ",", "}"):
+                # struct literal `Name { f: e, g }`
+                self.i += 1
+                fields = []
+                while not self.at("}"):
+                    fn_ = self.ident()
+                    if self.opt(":"):
+                        fe = self.expr()
+                    else:
+                        fe = ("var", fn_)
+                    fields.append((fn_, fe))
+                    if not self.opt(","):
+                        break
+                self.eat("}")
+                return ("struct", segs[-1], fields)
             if len(segs) == 1:
                 return ("var", segs[0])
             return ("path", segs)
@@ -633,6 +652,8 @@ class Gen:
             return "Unit"
         if ty in getattr(self, "enums", {}) or ty in getattr(self, "structs", {}):
             return ty
+        if ty == "Address":
+            return "Nat"     # an account / contract: an opaque identifier
         if ty == "Bytes32":
             return "B32"
         if ty.startswith("Vec<"):
@@ -767,6 +788,20 @@ class Gen:
                 if rt in NATTY or rt == "int":
                     return (f"({l} {'&&&' if e[1] == '&' else ('|||' if e[1] == '|' else '>>>')} {as_nat(rl, rt)})", lt)
             raise Unsupported(f"bit operation {e[1]} on {lt}")
+        if e[0] == "struct":
+            flds = getattr(self, "structs", {}).get(e[1])
+            if flds is None or [f for f, _ in flds] != [f for f, _ in e[2]]:
+                raise Unsupported(f"struct literal {e[1]}")
+            parts = []
+            for (fn_, ft), (_, fe) in zip(flds, e[2]):
+                l, t = self.pure(fe, env)
+                parts.append(f"{fn_} := {as_nat(l, t) if ft in NATTY or ft == 'Address' else l}")
+            return (f"({{ {', '.join(parts)} }} : {e[1]})", e[1])
+        if e[0] == "mcall" and e[2] == "clone" and not e[3]:
+            return self.pure(e[1], env)
+        if e == ("mcall", ("mcall", ("var", "e"), "ledger", []), "max_live_until_ledger", []) and "max_live_until_ledger" in getattr(self, "reads", {}):
+            self.uses_reads = True
+            return ("envr.max_live_until_ledger", self.reads["max_live_until_ledger"])
         if e[0] == "cast":
             l, t = self.pure(e[1], env)
             if e[2] in ("i128", "I256") and (t in SMALL or t in ("int", "i128")):
@@ -799,11 +834,11 @@ class Gen:
             if e[1][1] not in self.enums[e[1][0]]:
                 raise Unsupported(f"unknown variant {e[1]}")
             return (f"{e[1][0]}.{e[1][1]}", e[1][0])
-        st_ = self.storage_get(e)
+        st_ = self.storage_get(e, env)
         if st_ is not None:
             return st_
         if e[0] == "mcall" and e[2] == "unwrap_or" and len(e[3]) == 1:
-            inner = self.storage_get(self.strip(e[1]))
+            inner = self.storage_get(self.strip(e[1]), env)
             if inner is not None:
                 d, dt = self.pure(e[3][0], env)
                 return (f"(Option.getD {inner[0]} {d})", inner[1][7:-1])
@@ -843,7 +878,7 @@ class Gen:
             return (f"(if {c} then {a} else {b})", rt_)
         raise Unsupported(f"not a pure expression: {e[0]} {e[1] if len(e) > 1 and isinstance(e[1], str) else ''}")
 
-    def storage_get(self, e):
+    def storage_get(self, e, env=None):
         """`e.storage().instance()/persistent()/temporary().get(&Key::Variant)` (optionally typed `get::<_, T>`)
         → the field `get_<Variant>` of the reads record, an `Option`"""
         if e[0] == "mcall" and e[2] == "get" and len(e[3]) == 1:
@@ -851,12 +886,44 @@ class Gen:
             if r[0] == "mcall" and r[2] in ("instance", "persistent", "temporary") and not r[3] \
                     and self.strip(r[1]) == ("mcall", ("var", "e"), "storage", []):
                 key = self.strip(e[3][0])
+                ko = self.key_of(key, env) if (getattr(self, "store", None) and env is not None) else None
+                if ko is not None:
+                    cell, kargs = ko
+                    if "$st" not in env:
+                        raise Unsupported("storage read outside a store function")
+                    return (f"({env['$st'][0]}.{cell}{''.join(' ' + a for a in kargs)})", f"Option<{self.store[cell][1]}>")
                 if key[0] == "path":
                     name = "get_" + key[1][-1]
                     if name in getattr(self, "reads", {}):
                         self.uses_reads = True
                         return (f"envr.{name}", self.reads[name])
         return None
+
+    def key_of(self, key, env):
+        """a storage key expression -> (cell name, [argument atoms]) of the store record, or None"""
+        key = self.strip(key)
+        store = getattr(self, "store", None) or {}
+        if key[0] == "var" and key[1] in env and env[key[1]][1].startswith("Key:"):
+            cell = env[key[1]][1][4:]
+            return (cell, [a for a in env[key[1]][0].split("\x00") if a])
+        if key[0] == "path" and len(key[1]) == 2 and key[1][1] in store and not store[key[1][1]][0]:
+            return (key[1][1], [])
+        if key[0] == "call" and key[1][0] == "path" and len(key[1][1]) == 2 and key[1][1][1] in store:
+            cell = key[1][1][1]
+            atys = store[cell][0]
+            if len(atys) != len(key[2]):
+                raise Unsupported(f"storage key {cell}: arity")
+            args_ = []
+            for a in key[2]:
+                l, t = self.pure(a, env)
+                args_.append(l)
+            return (cell, args_)
+        return None
+
+    def is_storage(self, r):
+        r = self.strip(r)
+        return r[0] == "mcall" and r[2] in ("instance", "persistent", "temporary") and not r[3] \
+            and self.strip(r[1]) == ("mcall", ("var", "e"), "storage", [])
 
     def block_expr(self, b):
         if b is None:
@@ -928,6 +995,8 @@ class Gen:
         """ret: the enclosing function's Rust return type (for `?` / `return`)."""
         e0 = e
         e = self.strip(e)
+        if "$st" in env:
+            self.cur_st = env["$st"][0]
         # 1. pure?
         pure_err, got = None, None
         try:
@@ -1007,6 +1076,19 @@ class Gen:
             return self.tr(e[2], env, kl, ret)
         if kind == "mcall" and e[2] == "find_map" and len(e[3]) == 1 and self.strip(e[1])[0] == "bin" and self.strip(e[1])[1] == "..":
             return self.tr_find_map(e, env, k, ret)
+        if kind == "iflet":
+            # `if let Some(x) = v { .. } else { .. }` as a VALUE
+            _, nm, sc, tb, eb = e
+            if eb is None:
+                raise Unsupported("if-let without else in value position")
+            def kiv(a, t):
+                if not t.startswith("Option<"):
+                    raise Unsupported("if-let on " + t)
+                nb = self.fresh(nm + "_")
+                some_c = self.tr_block(tb, dict(env, **{nm: (nb, t[7:-1])}), k, ret)
+                none_c = self.tr_block(eb, env, k, ret)
+                return f"(optCase {a}\n (fun {nb} =>\n {some_c})\n ({none_c}))"
+            return self.tr(sc, env, kiv, ret)
         if kind == "un" and e[1] == "-":
             def kn(a, at):
                 v = self.fresh()
@@ -1049,7 +1131,8 @@ class Gen:
                     if p[0] == "some":
                         if not st.startswith("Option<"):
                             raise Unsupported("Some-pattern on " + st)
-                        arms["some"] = f"(fun {p[1]} =>\n {self.tr(body, dict(env, **{p[1]: (p[1], st[7:-1])}), k, ret)})"
+                        nb = self.fresh(p[1] + "_")
+                        arms["some"] = f"(fun {nb} =>\n {self.tr(body, dict(env, **{p[1]: (nb, st[7:-1])}), k, ret)})"
                     elif p[0] == "none":
                         arms["none"] = f"({self.tr(body, env, k, ret)})"
                     elif p[0] == "path" and st == "Rounding":
@@ -1093,6 +1176,11 @@ class Gen:
                 cands = [ns for (ns, n) in self.sigs if n == f[1] and (ns, n) in self.free_fns]
                 if len(cands) == 1:
                     return self.call_fn(cands[0], f[1], None, e[2], env, k, ret)
+            if f[0] == "path" and len(f[1]) == 2 and f[1][0] in getattr(self, "impl_types", {}):
+                tgt = self.impl_types[f[1][0]]
+                if (tgt, f[1][1]) not in self.sigs:
+                    raise Unsupported(f"call of untranslated function {f[1][0]}::{f[1][1]}")
+                return self.call_fn(tgt, f[1][1], None, e[2], env, k, ret)
             if f[0] == "path" and len(f[1]) == 2 and f[1][0] in ("Wad", "Self"):
                 tgt = "Wad" if f[1][0] == "Wad" else self.cur_ns
                 if (tgt, f[1][1]) not in self.sigs:
@@ -1123,12 +1211,13 @@ class Gen:
                     # `opt.map(|x| body)` with a body that computes (and may panic): a case split
                     cl = self.strip(args[0])
                     pv = cl[1][0]
+                    nb = self.fresh(pv + "_")
                     seen = {}
                     def ksome(a, t):
                         seen["t"] = t
                         return k(f"(some {a})", f"Option<{t}>")
-                    some_code = self.tr(cl[2], dict(env, **{pv: (pv, rt_[7:-1])}), ksome, ret)
-                    return f"(optCase {r}\n (fun {pv} =>\n {some_code})\n ({k('none', 'Option<' + seen.get('t', '?') + '>')}))"
+                    some_code = self.tr(cl[2], dict(env, **{pv: (nb, rt_[7:-1])}), ksome, ret)
+                    return f"(optCase {r}\n (fun {nb} =>\n {some_code})\n ({k('none', 'Option<' + seen.get('t', '?') + '>')}))"
                 if rt_.startswith("Option<") and name == "unwrap_or_else":
                     a = self.strip(args[0])
                     if not (a[0] == "closure" and not a[1] and self.strip(a[2])[0] == "macro" and self.strip(a[2])[1] == "panic_with_error"):
@@ -1169,6 +1258,13 @@ class Gen:
                 if (ns, name) in self.fuel_fns:
                     al = ["fuel"] + al
                     self.uses_fuel = True
+                if ns in getattr(self, "store_ns", set()):
+                    if "$st" not in env:
+                        raise Unsupported("call of a store function outside a store function")
+                    if (ns, name) in self.writers and not getattr(self, "_writer_ok", False):
+                        raise Unsupported(f"call of the state-changing function {name} inside an expression")
+                    self._writer_ok = False
+                    al = [env["$st"][0]] + al
                 if ns in getattr(self, "reads_ns", set()):
                     al = ["envr"] + al
                     self.uses_reads = True
@@ -1210,6 +1306,14 @@ class Gen:
             if i == len(stmts):
                 return k_end(env)
             s = stmts[i]
+            if s[0] == "let" and getattr(self, "store", None):
+                ko = self.key_of(s[3], env)
+                if ko is not None:
+                    return go(i + 1, dict(env, **{s[1]: ("\x00".join(ko[1]), "Key:" + ko[0])}))
+                wc = self.writer_call(s[3])
+                if wc is not None:
+                    self._writer_ok = True
+                    return self.tr(s[3], env, lambda a, t: go(i + 1, dict(env, **{s[1]: (f"{a}.1", t), "$st": (f"{a}.2", "Store")})), ret)
             if s[0] == "let":
                 ann = s[4] if len(s) > 4 else None
                 def klet(a, t):
@@ -1227,7 +1331,8 @@ class Gen:
                     def none_code():
                         return self.tr_stmts(eb[1], env, lambda _env: (_ for _ in ()).throw(Unsupported("let-else block that does not diverge")), ret) \
                             if eb[2] is None else self.tr(eb[2], env, None, ret)
-                    return f"(optCase {a}\n (fun {s[1]} =>\n {go(i + 1, dict(env, **{s[1]: (s[1], t[7:-1])}))})\n ({none_code()}))"
+                    nb = self.fresh(s[1] + "_")
+                    return f"(optCase {a}\n (fun {nb} =>\n {go(i + 1, dict(env, **{s[1]: (nb, t[7:-1])}))})\n ({none_code()}))"
                 return self.tr(s[2], env, kle, ret)
             if s[0] == "assign":
                 lhs = self.strip(s[1])
@@ -1241,6 +1346,8 @@ class Gen:
                     if not (a_[0] == "num" and int(str(a_[1]).replace("_", ""), 0) > 0):
                         raise Unsupported("/= by a non-literal")
                     return go(i + 1, dict(env, **{name: (f"({old} / {as_nat(*self.pure(a_, env))})", oty)}))
+                if s[2] in ("+=", "-=", "*=") and oty in ("i128",) + tuple(NATTY):
+                    return self.tr(("bin", s[2][:-1], s[1], s[3]), env, lambda a, t: go(i + 1, dict(env, **{name: (a, oty)})), ret)
                 if s[2] in (">>=", "&="):
                     l, t = self.pure(("bin", s[2][:-1], s[1], s[3]), env)
                     return go(i + 1, dict(env, **{name: (l, oty)}))
@@ -1249,6 +1356,27 @@ class Gen:
                 return self.tr_while(s, env, lambda env2: go(i + 1, env2), ret)
             if s[0] == "for":
                 return self.tr_for(s, env, lambda env2: go(i + 1, env2), ret)
+            if s[0] == "expr" and getattr(self, "store", None):
+                e = self.strip(s[1])
+                if e[0] == "mcall" and self.is_storage(e[1]):
+                    if e[2] == "extend_ttl":
+                        # TTL bookkeeping: outside the functional state (archival is not modelled)
+                        return go(i + 1, env)
+                    if e[2] == "set" and len(e[3]) == 2:
+                        ko = self.key_of(e[3][0], env)
+                        if ko is None or "$st" not in env:
+                            raise Unsupported("storage write with an unknown key")
+                        cell, kargs = ko
+                        def kset(a, t):
+                            vt = self.store[cell][1]
+                            a2 = as_nat(a, t) if vt in NATTY else a
+                            st2 = f"({self.cur_ns}.Store.set_{cell} {env['$st'][0]}{''.join(' ' + x for x in kargs)} {a2})"
+                            return go(i + 1, dict(env, **{"$st": (st2, "Store")}))
+                        return self.tr(e[3][1], env, kset, ret)
+                    raise Unsupported(f"storage operation {e[2]}")
+                if self.writer_call(e) is not None:
+                    self._writer_ok = True
+                    return self.tr(e, env, lambda a, t: go(i + 1, dict(env, **{"$st": (f"{a}.2", "Store")})), ret)
             if s[0] == "expr":
                 e = self.strip(s[1])
                 if e[0] == "if":
@@ -1279,24 +1407,46 @@ class Gen:
                     tb = self.as_stmts(tb)
                     if tb[2] is not None:
                         raise Unsupported("if-let statement with a value")
-                    if self.assigned_vars(tb[1], set()):
+                    def outer_assigned(stmts_):
+                        loc = {x[1] for x in stmts_ if x[0] == "let"}
+                        return self.assigned_vars(stmts_, set()) - loc
+                    if outer_assigned(tb[1]):
                         raise Unsupported("if-let statement that assigns")
+                    def after(env2):
+                        return go(i + 1, dict(env, **{"$st": env2["$st"]}) if "$st" in env2 else env)
                     def kil(a, t):
                         if not t.startswith("Option<"):
                             raise Unsupported("if-let on " + t)
-                        some_c = self.tr_stmts(tb[1], dict(env, **{nm: (nm, t[7:-1])}), lambda env2: go(i + 1, env), ret)
+                        nb = self.fresh(nm + "_")
+                        some_c = self.tr_stmts(tb[1], dict(env, **{nm: (nb, t[7:-1])}), after, ret)
                         if eb is None:
                             none_c = go(i + 1, env)
                         else:
                             eb_ = self.as_stmts(eb)
-                            if eb_[0] != "block" or eb_[2] is not None or self.assigned_vars(eb_[1], set()):
+                            if eb_[0] != "block" or eb_[2] is not None or outer_assigned(eb_[1]):
                                 raise Unsupported("else of an if-let statement")
-                            none_c = self.tr_stmts(eb_[1], env, lambda env2: go(i + 1, env), ret)
-                        return f"(optCase {a}\n (fun {nm} =>\n {some_c})\n ({none_c}))"
+                            none_c = self.tr_stmts(eb_[1], env, after, ret)
+                        return f"(optCase {a}\n (fun {nb} =>\n {some_c})\n ({none_c}))"
                     return self.tr(sc, env, kil, ret)
                 raise Unsupported(f"expression statement {e[0]}")
             raise Unsupported(f"statement {s[0]}")
         return go(0, env)
+
+    def writer_call(self, e):
+        """(ns, name) if `e` is a direct call of a state-changing translated function"""
+        e = self.strip(e)
+        if e[0] != "call":
+            return None
+        f = e[1]
+        tgt = None
+        if f[0] == "path" and len(f[1]) == 2:
+            tgt = getattr(self, "impl_types", {}).get(f[1][0]) or (self.cur_ns if f[1][0] == "Self" else None)
+            nm = f[1][1]
+        elif f[0] == "var":
+            tgt, nm = self.cur_ns, f[1]
+        if tgt and (tgt, nm) in getattr(self, "writers", set()):
+            return (tgt, nm)
+        return None
 
     def as_stmts(self, b):
         """a block used as a statement: a trailing `if` without a value is its last statement"""
@@ -1464,6 +1614,8 @@ class Gen:
         stmts, tail = b[1], b[2]
 
         def k_end(env2):
+            if "$st" in env2:
+                self.cur_st = env2["$st"][0]
             if tail is None:
                 if ret == "()":
                     return k("()", "()")
@@ -1486,22 +1638,35 @@ class Gen:
                 continue
             if pt == "Self":
                 pt = self_ty
-            if pn == "self":
-                pn_l = "self_"
+            if pn == "self" or pn in ("from", "to", "end", "at", "with", "fun", "then", "else", "do", "in", "have", "show", "open", "by", "let", "match", "if", "where", "at"):
+                pn_l = pn + "_"
             else:
                 pn_l = pn
             env[pn] = (pn_l, pt)
             lparams.append(f"({pn_l} : {self.lean_ty(pt)})")
         if self_ty:
             ret = re.sub(r"\bSelf\b", self_ty, ret)
-        code = self.tr_block(body, env, lambda a, t: f"Comp.ok {a}", ret)
+        is_store = ns in getattr(self, "store_ns", set())
+        is_writer = is_store and (ns, name) in self.writers
+        if is_store:
+            env["$st"] = ("st", "Store")
+            self.cur_st = "st"
+        self.ret_wrap = (lambda x: f"({x}, {self.cur_st})") if is_writer else None
+        if is_writer:
+            code = self.tr_block(body, env, lambda a, t: f"Comp.ok ({a}, {self.cur_st})", ret)
+        else:
+            code = self.tr_block(body, env, lambda a, t: f"Comp.ok {a}", ret)
+        self.ret_wrap = None
         fuel = "(fuel : Nat) " if (ns, name) in self.fuel_fns else ""
         if ns in getattr(self, "reads_ns", set()):
             fuel += f"(envr : {ns}.Reads) "
+        if is_store:
+            fuel += f"(st : {ns}.Store) "
         if self.uses_fuel and not fuel:
             raise Unsupported(f"{name} uses fuel but was not announced")
+        rty_l = f"({self.lean_ty(ret)} × {ns}.Store)" if is_writer else self.lean_ty(ret)
         return "\n".join(self.aux) + ("\n" if self.aux else "") + \
-            f"def {ns}.{name} {fuel}{' '.join(lparams)} : Comp {self.lean_ty(ret)} :=\n {code}\n"
+            f"def {ns}.{name} {fuel}{' '.join(lparams)} : Comp {rty_l} :=\n {code}\n"
 
 
 FILES_VAULT = [
@@ -1529,6 +1694,13 @@ FILES_CAP = [
 READS_VOTES = {"Votes": {"get_checkpoint": ("fn", ["u32"], "Checkpoint")}}
 STRUCTS_VOTES = {"Checkpoint": [("ledger", "u32"), ("votes", "u128")]}
 FILES_VOTES = [("Votes", "packages/governance/src/votes/storage.rs", ["lookup_checkpoint_at"])]
+STORE_FUNGIBLE = {"Fungible": {"Balance": (["Address"], "i128"), "TotalSupply": ([], "i128"),
+                               "Allowance": (["AllowanceKey"], "AllowanceData")}}
+STRUCTS_FUNGIBLE = {"AllowanceData": [("amount", "i128"), ("live_until_ledger", "u32")],
+                    "AllowanceKey": [("owner", "Address"), ("spender", "Address")]}
+READS_FUNGIBLE = {"Fungible": {"ledger_sequence": "u32", "max_live_until_ledger": "u32"}}
+FILES_FUNGIBLE = [("Fungible", "packages/tokens/src/fungible/storage.rs",
+                   ["total_supply", "balance", "allowance_data", "allowance", "set_allowance", "spend_allowance", "update"])]
 FILES_CONS = [("Consecutive", "packages/tokens/src/non_fungible/extensions/consecutive/storage.rs",
                ["find_bit_in_item", "find_bit_in_bucket"])]
 READS_MERKLE = {"Merkle": {"hash_pair": ("fn", ["Bytes32", "Bytes32"], "Bytes32"), "gt": "fn2bool"}}
@@ -1567,7 +1739,8 @@ def deps(e, acc):
             deps(x, acc)
 
 
-def translate(repo, FILES=FILES, DEPS=(), imports=("OZ.Model.RustSem",), reads=None, structs=None, tymaps=None):
+def translate(repo, FILES=FILES, DEPS=(), imports=("OZ.Model.RustSem",), reads=None, structs=None, tymaps=None,
+              store=None, impl_types=None):
     """DEPS: files translated elsewhere whose signatures are needed (parsed, not emitted);
     reads: {namespace: {getter name: Rust type}} — the side-effect-free state getters (`Self::name(e)`)
     that become fields of the record `<namespace>.Reads` passed to every function of that namespace"""
@@ -1625,6 +1798,30 @@ def translate(repo, FILES=FILES, DEPS=(), imports=("OZ.Model.RustSem",), reads=N
                 deps(f[4], acc)
                 if any(ns2 == ns and n in acc for (ns2, n) in list(fuel_fns)):
                     fuel_fns.add((ns, f[1])); changed = True
+    # state-changing functions of the store namespaces: those with a storage write, and their callers
+    def has_write(e):
+        if isinstance(e, tuple):
+            if len(e) == 4 and e[0] == "mcall" and e[2] in ("set", "remove") and isinstance(e[1], tuple):
+                r = e[1]
+                while isinstance(r, tuple) and r and r[0] in ("ref", "deref", "paren"):
+                    r = r[1]
+                if isinstance(r, tuple) and len(r) == 4 and r[0] == "mcall" and r[2] in ("instance", "persistent", "temporary"):
+                    return True
+            return any(has_write(x) for x in e)
+        if isinstance(e, list):
+            return any(has_write(x) for x in e)
+        return False
+    writers = {(ns, f[1]) for ns, rel, fns in parsed for f in fns if ns in (store or {}) and has_write(f[4])}
+    changed = True
+    while changed:
+        changed = False
+        for ns, rel, fns in parsed:
+            for f in fns:
+                if ns in (store or {}) and (ns, f[1]) not in writers:
+                    acc = set()
+                    deps(f[4], acc)
+                    if any(ns2 == ns and n in acc for (ns2, n) in list(writers)):
+                        writers.add((ns, f[1])); changed = True
     for ns, rel, fns in parsed:
         if ns not in emit_ns:
             continue
@@ -1646,6 +1843,21 @@ def translate(repo, FILES=FILES, DEPS=(), imports=("OZ.Model.RustSem",), reads=N
                     continue
                 out.append(f"  {rn} : {g0.lean_ty(rt)}")
             out.append("")
+            if store and ns in store:
+                out.append(f"/-- the contract storage the translated functions read and write: one field per storage key\n"
+                           f"variant (a missing entry is `none`); TTL bookkeeping is not part of it -/\nstructure {ns}.Store where")
+                for cell, (atys, vt) in store[ns].items():
+                    out.append(f"  {cell} : {''.join(g0.lean_ty(t_) + ' → ' for t_ in atys)}Option {g0.lean_ty(vt)}")
+                out.append("")
+                for cell, (atys, vt) in store[ns].items():
+                    ks = " ".join(f"(k{j} : {g0.lean_ty(t_)})" for j, t_ in enumerate(atys))
+                    if atys:
+                        xs = " ".join(f"x{j}" for j in range(len(atys)))
+                        cond_ = " ∧ ".join(f"x{j} = k{j}" for j in range(len(atys)))
+                        body_ = f"fun {xs} => if {cond_} then some v else s.{cell} {xs}"
+                    else:
+                        body_ = "some v"
+                    out.append(f"def {ns}.Store.set_{cell} (s : {ns}.Store) {ks} (v : {g0.lean_ty(vt)}) : {ns}.Store :=\n  {{ s with {cell} := {body_} }}\n")
         names = [f[1] for f in fns]
         # callee-before-caller order inside the file
         dep = {}
@@ -1669,6 +1881,10 @@ def translate(repo, FILES=FILES, DEPS=(), imports=("OZ.Model.RustSem",), reads=N
         g.fuel_fns = fuel_fns
         g.reads = reads.get(ns, {})
         g.reads_ns = set(reads)
+        g.store = (store or {}).get(ns)
+        g.store_ns = set(store or {})
+        g.impl_types = impl_types or {}
+        g.writers = writers
         g.enums = enums
         g.structs = structs or {}
         for f in order:
@@ -1958,7 +2174,10 @@ def main():
                 sys.stdout.write(txt)
         sys.exit(rc)
     try:
-        if "--cons" in sys.argv:
+        if "--fungible" in sys.argv:
+            txt = translate(repo, FILES_FUNGIBLE, reads=READS_FUNGIBLE, structs=STRUCTS_FUNGIBLE, store=STORE_FUNGIBLE,
+                            impl_types={"Base": "Fungible"})
+        elif "--cons" in sys.argv:
             txt = translate(repo, FILES_CONS)
         elif "--merkle" in sys.argv:
             txt = translate(repo, FILES_MERKLE, reads=READS_MERKLE, tymaps=TYMAPS_MERKLE)
